@@ -118,4 +118,17 @@ PROPS = {
             {"name": "TestC09Exhaustive", "kind": "plain", "quick": 1, "thorough": 1, "tiers": ("thorough",), "shards_thorough": 12},
         ],
     },
+    "C16": {
+        "level": "exploration",
+        "tests": [
+            {"name": "TestC16A", "quick": 2000, "thorough": 60000, "shards_quick": 8},
+            {"name": "TestC16B", "quick": 2000, "thorough": 40000, "shards_quick": 4},
+            {"name": "TestC16C", "quick": 300, "thorough": 3000, "shards_quick": 4},
+            # committed seed corpus of the native fuzz targets, replayed as ordinary tests (cwd = package directory)
+            {"name": "FuzzC16Expand", "kind": "plain", "quick": 1, "thorough": 1, "cwd_props": True},
+            {"name": "FuzzC16Extract", "kind": "plain", "quick": 1, "thorough": 1, "cwd_props": True},
+            {"name": "FuzzC16Expand", "kind": "fuzz", "fuzztime": 90, "tiers": ("thorough",)},
+            {"name": "FuzzC16Extract", "kind": "fuzz", "fuzztime": 90, "tiers": ("thorough",)},
+        ],
+    },
 }
